@@ -427,6 +427,40 @@ def _promise_field(rec):
     return None
 
 
+def _claims_flag(g):
+    """qualified name of the bool member that method g test-and-sets, if g returns true exactly on the paths where it found the
+    member false and stored true into it (every `return true` is guarded by the member being false and dominated by the store;
+    every other return yields constant false); else None."""
+    if not g.has_cfg:
+        return None
+    rets = [r for r in g.all_nodes() if r.get('k') == 'return' and isinstance(r.get('sub'), int)]
+    if not rets:
+        return None
+    flagq = None
+    for r in rets:
+        v = g.const_value(r['sub'])
+        if v is None:
+            return None
+        if v == 0:
+            continue
+        fl = None
+        for (c, sense, _b) in guards_of(g, r['id']):
+            cn = g.sn(c)
+            if (not sense) and cn is not None and cn.get('k') == 'member' and cn.get('field') and cn.get('t') == 'bool' and g.is_this_member(c):
+                fl = cn['q']
+        if fl is None or (flagq is not None and fl != flagq):
+            return None
+        stored = False
+        for a in g.all_nodes():
+            if a.get('k') == 'assign' and a.get('op') == '=' and (g.sn(a['lhs']) or {}).get('q') == fl and g.const_value(a['rhs']) == 1 \
+                    and g.elem_dominates(a['id'], r['id']):
+                stored = True
+        if not stored:
+            return None
+        flagq = fl
+    return flagq
+
+
 def rule_header_promise(fb, R):
     rec = fb.record(PARSER)
     if rec is None:
@@ -470,11 +504,25 @@ def rule_header_promise(fb, R):
                       '%s is used in %s other than by a guarded set_value/set_exception' % (pf['name'], f.q))
                 continue
             flag = None
+            claimed = None
             for (c, sense, _b) in guards_of(f, call['id']):
                 cn = f.sn(c)
                 if (not sense) and cn is not None and cn.get('k') == 'member' and cn.get('field') and cn.get('t') == 'bool' and f.is_this_member(c):
                     flag = cn
+                elif sense and cn is not None and cn.get('k') == 'call' and cn.get('u') and cn.get('rcls') == f.cls and not cn.get('virt'):
+                    # a helper of the class whose true result means "this call found the flag clear and set it" (inlined,
+                    # path-sensitive on its result)
+                    for g in fb.by_usr.get(cn['u'], []):
+                        fq = _claims_flag(g)
+                        if fq is not None:
+                            claimed = fq
             setok = False
+            if flag is None and claimed is not None:
+                flags.add(claimed)
+                R.ok('H1-header-promise-guarded', key, f.loc(call['id']))
+                if call['q'].endswith('set_value'):
+                    value_setters.add(f.q)
+                continue
             if flag is not None:
                 flags.add(flag['q'])
                 for s in f.all_nodes():
@@ -1203,22 +1251,43 @@ def rule_reader_state(fb, R, E):
                 for n in g.all_nodes():
                     if n.get('k') == 'call' and n.get('u') and 'std::thread::join' in closure_of(g, n):
                         work.extend(t for t in fb.by_usr.get(n['u'], []) if t.has_cfg)
-        # child process
-        wp = [n for n in f.all_nodes() if n.get('k') == 'call' and n.get('q') in ('waitpid', '::waitpid')]
-        for wcall in wp:
-            pidf = None
-            for (c, sense, _b) in guards_of(f, wcall['id']):
-                cn = f.sn(c)
-                if sense and cn is not None and cn.get('k') == 'member' and cn.get('field') and f.is_this_member(c):
-                    pidf = cn
-            resets = set()
-            if pidf is not None:
-                for s in f.all_nodes():
-                    if s.get('k') == 'assign' and (f.sn(s['lhs']) or {}).get('q') == pidf['q'] and f.const_value(s['rhs']) == 0:
-                        resets.add(elem_of(f, s['id']))
-            w = path_search(f, wcall['id'], _exit_t, lambda e: e in resets or (f.nodes.get(e) or {}).get('k') == 'throw') if pidf is not None else ['unguarded']
-            R.check(pidf is not None and w is None, 'S3-close-idempotent', f.q + '#child-waited-once', f.loc(wcall['id']),
-                    'waitpid must be guarded by the child pid member, which is reset on every normal path after it (a second close() would fail with ECHILD)')
+        # child process: waitpid in close() or in a helper of the class that close() calls (treated as inlined); the guard may
+        # stand in the helper (guard clause) or at the call of the helper
+        cands = [(f, [])]
+        seenc = {id(f)}
+        i = 0
+        while i < len(cands):
+            g, path = cands[i]
+            i += 1
+            for x in g.all_nodes():
+                for t in callee_methods(g, x):
+                    if id(t) not in seenc and len(path) < 3:
+                        seenc.add(id(t))
+                        cands.append((t, path + [(g, x)]))
+        for (g, path) in cands:
+            for wcall in [n for n in g.all_nodes() if n.get('k') == 'call' and n.get('q') in ('waitpid', '::waitpid')]:
+                pidf = None
+                for (gg, nid) in [(g, wcall['id'])] + [(cg, c['id']) for (cg, c) in path]:
+                    for (c, sense, _b) in guards_of(gg, nid):
+                        cn = gg.sn(c)
+                        if sense and cn is not None and cn.get('k') == 'member' and cn.get('field') and gg.is_this_member(c):
+                            pidf = cn
+                resets = set()
+                if pidf is not None:
+                    for a in g.all_nodes():
+                        if a.get('k') == 'assign' and (g.sn(a['lhs']) or {}).get('q') == pidf['q'] and g.const_value(a['rhs']) == 0:
+                            resets.add(elem_of(g, a['id']))
+                w = path_search(g, wcall['id'], _exit_t, lambda e, g=g, resets=resets: e in resets or (g.nodes.get(e) or {}).get('k') == 'throw') \
+                    if pidf is not None else ['unguarded']
+                if w is not None and pidf is not None and path:
+                    # reset after the helper returned, in the caller
+                    (cg, c) = path[-1]
+                    rs = {elem_of(cg, a['id']) for a in cg.all_nodes() if a.get('k') == 'assign' and (cg.sn(a['lhs']) or {}).get('q') == pidf['q']
+                          and cg.const_value(a['rhs']) == 0}
+                    if path_search(cg, c['id'], _exit_t, lambda e, cg=cg, rs=rs: e in rs or (cg.nodes.get(e) or {}).get('k') == 'throw') is None:
+                        w = None
+                R.check(pidf is not None and w is None, 'S3-close-idempotent', f.q + '#child-waited-once', g.loc(wcall['id']),
+                        'waitpid must be guarded by the child pid member, which is reset on every normal path after it (a second close() would fail with ECHILD)')
     if not fb.fns(closeq):
         R.broken('%s not found' % closeq)
 
